@@ -9,6 +9,28 @@ NOTE_STD = ("Trusted: Lean kernel, axioms propext/Classical.choice/Quot.sound as
             "the correspondence harness (sampled tie between model and code). ")
 
 CHECKS = {
+    "C03": dict(
+        text="Lean theorem C03_refines: for every index, note and filter tree (any depth, every atom kind, every literal incl. % _ \\) the meaning of the "
+        "emitted SQL (model of _query_converter.py helper by helper, with SQLite LIKE/ESCAPE, lower, date, CAST, IN/NOT IN) equals the specification "
+        "evaluator sat (direct reading of the statement); corollaries: result set = filter sat, text literals literal, negation = complement, negated "
+        "comparison needs the property. Both evaluators are tied to the code on real indexes built by `db create`: implementation result vs sat vs SQL "
+        "model, universe read back from raw SQLite rows.",
+        note=NOTE_STD + "SQLite/SQLAlchemy behaviour is modelled (Model/Sql.lean), not verified; typed comparisons on values that do not parse in the filter's "
+        "type are open; ASCII, lower-case page/link names (LIKE folds case).",
+        technique="Lean 4 proof (SQL meaning refines spec evaluator; LIKE-escape lemma) + index correspondence",
+        design="§4 C03",
+    ),
+    "C04": dict(
+        text="Lean theorem C04_denotes: for every well-formed query syntax tree (every select form, filter tree of any shape/depth, both clause orders) "
+        "the parser+listener model applied to its token rendering yields its denotation, errors included; all 64 priority spellings are checked through "
+        "the generated lexer DFAs by the kernel; calendar lemmas for relative dates (month clamping, short-date round trip). The model is tied to "
+        "build_zorg_query by generated queries under a frozen clock on boundary days plus boundary enumerations, and token-stream correspondence of the "
+        "generated DFAs with the real lexer.",
+        note=NOTE_STD + "ANTLR's parse of a well-formed query = recursive-descent reading of the grammar (sampled); lexing of arbitrary identifiers rests on the "
+        "token correspondence (only priority spellings are proved at character level). Juxtaposed kind letters are a recorded known finding.",
+        technique="Lean 4 proof (parser model computes the denotation, induction over syntax trees) + generated lexer + correspondence",
+        design="§4 C04",
+    ),
     "C14": dict(
         text="Lean theorem: Python's two str.replace passes ('[[A]'->'[[B]', then '[[A#'->'[[B#') equal the one-pass specification "
         "(every link to A retargeted, every other character copied) for every text and all link-safe names, plus near-miss and "
